@@ -120,6 +120,13 @@ def payload_docs():
             yield [['component', 'C', ports]]
             yield [['foreign', 'C', ports]]
             yield [['system', 'C', ports, [], []]]
+    # two declarations whose ports agree in name and written type and differ in ONE attribute (direction, injected)
+    for a, b in itertools.product(port_opts, repeat=2):
+        for k1, k2 in (('component', 'component'), ('component', 'foreign'), ('system', 'component')):
+            def decl(kind, nm, opt):
+                ports = [['p', opt[0], opt[1], opt[2]]]
+                return [kind, nm, ports] if kind != 'system' else ['system', nm, ports, [], []]
+            yield [decl(k1, 'C1', a), decl(k2, 'C2', b)]
     # events
     dirs = ('in', 'out', 'inout')
     in_formals = [list(c) for n in range(0, 3) for c in itertools.product(dirs, repeat=n)]
